@@ -908,6 +908,10 @@ class TextXVisitor(RRELVisitor):
                     rule = ZeroOrMore(nodes=[expr])
                 elif repeat_op == "+":
                     rule = OneOrMore(nodes=[expr])
+                elif isinstance(expr, RuleCrossRef):
+                    # A group consisting of a single rule reference. The
+                    # reference is not resolved yet so it has no sub-nodes.
+                    rule = UnorderedGroup(nodes=[expr])
                 else:
                     rule = UnorderedGroup(nodes=expr.nodes)
 
